@@ -902,11 +902,48 @@ def do_formula(ctx, f, kind, sample=False):
     ctx.case(('formula', f), nontrivial=fsize(f) >= 2, sample=info if sample else None)
 
 
+HOSTILE = [0]
+
+
+def hostile_formula(rng):
+    """every atom is named like a variable the encoding introduces, with indices around the places where a numbering
+    scheme can go wrong: one digit next to two digits (x9 / x10: '9' > '10' as strings), leading zeros, gaps, and an
+    atom that sorts first; all atoms occur in the formula"""
+    d = rng.choice([2, 5, 8, 9, 9, 9])
+    m = rng.choice([10, 10, 10, 11, 12, 20, 100])
+    small = rng.choice(['x1', 'x1', 'x0', 'x01', 'x', 'x3', 'a'])
+    atoms = list(dict.fromkeys([small, 'x%d' % d, 'x%d' % m] + ([rng.choice(['x2', 'x4', 'x13', 'y1'])] if rng.random() < 0.3 else [])))
+    rng.shuffle(atoms)
+    HOSTILE[0] += 1
+    kind = rng.random()
+    f = gen_formula(rng, atoms, rng.randint(1, 5))
+    for a in atoms:
+        if a not in fatoms(f) or kind < 0.5:
+            lit = ('atom', a) if rng.random() < 0.5 else ('not', ('atom', a))
+            f = ('and', f, lit) if rng.random() < 0.5 else ('and', lit, f)
+    return f, 'hostile-names'
+
+
 def rand_formula(rng):
     r = rng.random()
-    hostile_names = rng.random() < 0.08
-    pool = ['a', 'b', 'c', 'd'] if not hostile_names else rng.choice([['x1', 'a', 'b'], ['x2', 'x1', 'a'], ['a', 'x3', 'b', 'x1']])
-    atoms = pool[:rng.randint(1, len(pool))]
+    hostile_names = rng.random() < 0.2
+    if not hostile_names:
+        pool = ['a', 'b', 'c', 'd']
+    elif rng.random() < 0.4:
+        pool = rng.choice([['x1', 'a', 'b'], ['x2', 'x1', 'a'], ['a', 'x3', 'b', 'x1']])
+    else:
+        # atoms named like the variables the encoding introduces (x<i>): one- and two-digit indices, leading zeros,
+        # gaps - whatever numbering scheme picks the fresh names must avoid all of them
+        fam = ['x0', 'x1', 'x2', 'x3', 'x5', 'x8', 'x9', 'x10', 'x11', 'x12', 'x19', 'x20', 'x01', 'x010', 'x100', 'x', 'x1a', 'y1']
+        pool = rng.sample(fam, rng.randint(2, 4))
+        if rng.random() < 0.5 and 'x10' not in pool:
+            pool[rng.randrange(len(pool))] = 'x10'
+        if rng.random() < 0.5 and 'x9' not in pool:
+            pool[rng.randrange(len(pool))] = 'x9'
+        pool = list(dict.fromkeys(pool))
+    atoms = pool[:rng.randint(1, len(pool))] if not hostile_names else pool
+    if hostile_names:
+        HOSTILE[0] += 1
     if r < 0.40:
         return gen_formula(rng, atoms, rng.randint(0, 12)), 'random'
     if r < 0.65:
@@ -1011,7 +1048,7 @@ def run_shard(ctx, spec):
             do_cnf(ctx, rand_cnf(rng), 'random', sample=(k == 0 and spec['i'] < 2))
     elif kind == 'tseitin':
         for k in range(spec['count']):
-            f, fk = rand_formula(rng)
+            f, fk = rand_formula(rng) if k % 3 else hostile_formula(rng)
             ctx.count('formula_kind:' + fk)
             do_formula(ctx, f, fk, sample=(k < 1))
 
